@@ -74,4 +74,16 @@ ITEMS = [
          proofs=[dict(at='start', text='reveal_strlit(" "); lemma_replaced2_break_free(comment@); assert(" "@ =~= seq![\' \']);')],
          ensures=[('C20:staged_comment_has_no_line_break', 'break_free(r@)')],
          canaries=['C20:staged_comment_has_no_line_break']),
+    dict(src='src/wrapping.rs', path='fn first_line_leading_spaces', props=['C12', 'C01'],
+         loop_rewrites=[(1, 'split_lf')],
+         rewrites=[(r"\b(\w+)\.trim_start_matches\(' '\)", r"str_trim_start_spaces(\1)", None, 'R8'),
+                   (r'\b(\w+)\.len\(\) - (\w+(?:\([^()]*\))?)\.len\(\)', r'str_len_diff(\1, \2)', None, 'R8'),
+                   (r'\b(\w+)\.is_empty\(\)', r'str_is_empty(\1)', None, 'R8')],
+         proofs=[dict(after='__i1 += 1;', text='lemma_leading_spaces_prefix(line@);')],
+         ensures=[('C12:indent_indicator_counts_spaces_of_first_non_empty_line', 'r == first_line_spaces(split_lines(s@), 0)')],
+         loops={1: dict(invariant=[('prefix_lines_empty', '''__v1@.len() == split_lines(s@).len() && __i1 <= __v1@.len()
+                        && (forall|i: int| 0 <= i < __v1@.len() ==> (#[trigger] __v1@[i])@ == split_lines(s@)[i])
+                        && first_line_spaces(split_lines(s@), 0) == first_line_spaces(split_lines(s@), __i1 as int)''')],
+                        decreases='__v1@.len() - __i1')},
+         canaries=['C12:indent_indicator_counts_spaces_of_first_non_empty_line']),
 ]
